@@ -2,8 +2,10 @@
 # Offline setup: nothing is fetched. Validates the vcoll stand-ins against the real std
 # collections (differential test) and creates the scratch directories.
 set -u
+set -o pipefail
 cd "$(dirname "$0")"
 mkdir -p build evidence
 export CARGO_NET_OFFLINE=true
 ( cd vcoll && VCOLL_CAP=6 CARGO_TARGET_DIR=../build/target-vcoll-test cargo test --offline -q 2>&1 | tail -5 ) || { echo "vcoll differential validation failed"; exit 1; }
+( cd vcoll && VCOLL_CAP=6 CARGO_TARGET_DIR=../build/target-vcoll-test cargo test --offline -q --features inline 2>&1 | tail -5 ) || { echo "vcoll differential validation (inline storage) failed"; exit 1; }
 echo "setup ok"
